@@ -73,6 +73,25 @@ def agree(cname):
             MC = mc.make_sampler(cfg, V, socc)
             MC.start(mocc.copy())
             ob('sampler-energy', mc.lin_eq(MC.E(), Eref, sym))
+            # ... and still after the sampler has MOVED to a neighbouring occupation (one site filled, one emptied): brute force on the
+            # new occupation (the counters that start() leaves behind are only exercised by an update)
+            for kind, pick in (('fill', 0), ('empty', 1)):
+                sites = [i for i in range(len(mocc)) if mocc[i] == pick]
+                if not sites:
+                    continue
+                i = sites[0]
+                new = mocc.copy()
+                new[i] = 1 - pick
+                if pick == 0:
+                    MC.update((i,), ())
+                else:
+                    MC.update((), (i,))
+                cnt3 = mc.brute_force_counts(cfg, V.clusters, new, socc)
+                ob('sampler-energy-after-%s' % kind, mc.lin_eq(MC.E(), sum(vals[m] * int(c) for m, c in enumerate(cnt3)), sym))
+                if pick == 0:
+                    MC.update((), (i,))
+                else:
+                    MC.update((i,), ())
             if sym:
                 obs.append(('twin:%s:energy-shifted' % name, mc.lin_eq(MC.E(), Eref + 1e-6, True)))
         return obs
